@@ -19,19 +19,21 @@ META = {
             '"#" marker (decided counterexample 1.5 = 1.# = 1.7; "#" is not part of the ecosystem grammar); for Alpine on valid versions whose later components have no leading zero '
             '(unrestricted statement refuted by the decided witness 1.0 = 1 = 1.00, 1.0 < 1.00 — known finding C07/alpine-leading-zero-padding); for Maven on versions whose token '
             'list is canonical: first number, dot-numbers, then only dash-prefixed qualifiers/numbers, N(.N)*(-qualifier|-N)* (unrestricted statement refuted by the decided witness '
-            '1 < 1.foo < 1rc, 1 > 1rc — known finding C07/maven-qualifier-cycle). Published rules: for six ecosystem families an INDEPENDENT specification is written from the documentation (Spec/Semantic/*.lean: structured version V, '
+            '1 < 1.foo < 1rc, 1 > 1rc — known finding C07/maven-qualifier-cycle). Published rules: for seven ecosystem families an INDEPENDENT specification is written from the documentation (Spec/Semantic/*.lean: structured version V, '
             'canonical text render, ordering specCmp; the spec files import none of the models) and the agreement model-compare(render a, render b) = specCmp a b is proved for ALL '
             'well-formed V by induction over the segment lists: semver.org §11 (C07_semver_spec), deb-version(7) for Debian/Ubuntu (C07_debian_spec: epoch, upstream, revision, '
             'alternating non-digit/digit runs, letters before non-letters, ~ before everything even the end, missing revision = 0), PEP 440 for PyPI (C07_pypi_spec: epoch, '
             'zero-padded release, .devN < aN < bN < rcN < none < .postN, local labels; the proof runs the model of the backtracking PEP 440 regexp on the normalised text), '
             'Gem::Version for RubyGems (C07_rubygems_spec: canonical segments, strings below numbers, missing = 0), the NuGet documentation (C07_nuget_spec: SemVer 2 + legacy '
-            'revision, case-insensitive labels, metadata ignored) and R package_version for CRAN (C07_cran_spec: lexicographic integer sequences). The driver prints the spec verdict '
+            'revision, case-insensitive labels, metadata ignored), R package_version for CRAN (C07_cran_spec: lexicographic integer sequences) and the rpm version comparison for Red Hat '
+            '(C07_redhat_spec: digit/letter segments, ~ before everything even the end, ^ after the end but before any other continuation, numbers as integers and above letters, '
+            'present release above absent; needs the lemma that comparing zero-stripped decimal strings by length then as strings is numeric comparison). The driver prints the spec verdict '
             'for every pair that reads as canonical and the oracle compares the IMPLEMENTATION with it (about a quarter to a half of the generated pairs of these families, see '
             'coverage.spec_oracle_pairs), so a changed ordering rule becomes a concrete failing input even when all order laws still hold. Canonical classes: Debian without ":" in the '
             'upstream part; RubyGems numerals without leading zeros (outside it the code deviates from Ruby: 1.1.0.rc < 1.1.00.rc although Ruby reads 00 as 0 — reported as a defect '
             'candidate, not part of the canonical clause); the Debian/PyPI/NuGet/CRAN readers accept leading zeros because the rules compare values. '
-            'NOT DISCHARGED / not formalised: published rules of Red Hat (rpmvercmp), Packagist, Alpine and Maven; that the readers of the oracle invert render is proved for semver, Debian, RubyGems and CRAN '
-            '(C07_semver_specParse_render, C07_spec_readers) and checked on examples only for the NuGet and PyPI readers. '
+            'NOT DISCHARGED / not formalised: published rules of Packagist, Alpine and Maven; that the readers of the oracle invert render is proved for semver, Debian, RubyGems and CRAN '
+            '(C07_semver_specParse_render, C07_spec_readers) and checked on examples only for the NuGet, PyPI and Red Hat readers. '
             'Fuel: Debian, Red Hat, Packagist fuel is eliminated in the proofs; Maven trimLoop/walkDown exhaustion is a panic outcome of the model and is excluded by C07_maven_total; '
             'for the Alpine number-prefix / suffix finder and the PyPI legacy splitter / regexp star C07_fuel_adequate shows that any fuel above the argument length gives the same result '
             '(not proved: that the star inside the PEP 440 recogniser is only applied to suffixes of the input in general; on normalised texts C07_pypi_spec covers it).',
@@ -45,20 +47,20 @@ THEOREMS = ([P + 'C07_%s_total' % f for f in FAMS] + [P + 'C07_%s_refl' % f for 
             [P + 'C07_%s_trans' % f for f in ['semver', 'nuget', 'cran', 'debian', 'rubygems', 'redhat', 'pypi']] +
             [P + 'C07_packagist_trans_partial', P + 'C07_packagist_trans_fails', P + 'C07_alpine_trans_partial', P + 'C07_alpine_trans_fails',
              P + 'C07_maven_trans_partial', P + 'C07_maven_trans_fails', P + 'C07_all_total', P + 'C07_all_refl', P + 'C07_all_antisymm', P + 'C07_eco_total', P + 'C07_unsupported',
-             P + 'C07_semver_spec', P + 'C07_debian_spec', P + 'C07_pypi_spec', P + 'C07_rubygems_spec', P + 'C07_nuget_spec', P + 'C07_cran_spec', P + 'C07_spec_readers', P + 'C07_semver_hyphen_identifier', P + 'C07_semver_specParse_render', P + 'C07_fuel_adequate', P + 'C07_cran_nonnumeric', P + 'C07_packagist_long_number'])
+             P + 'C07_semver_spec', P + 'C07_debian_spec', P + 'C07_pypi_spec', P + 'C07_rubygems_spec', P + 'C07_nuget_spec', P + 'C07_cran_spec', P + 'C07_redhat_spec', P + 'C07_spec_readers', P + 'C07_semver_hyphen_identifier', P + 'C07_semver_specParse_render', P + 'C07_fuel_adequate', P + 'C07_cran_nonnumeric', P + 'C07_packagist_long_number'])
 
 ECO_FAM = {'npm': 'semver', 'crates.io': 'semver', 'Go': 'semver', 'Hex': 'semver', 'Pub': 'semver', 'ConanCenter': 'semver', 'NuGet': 'nuget', 'CRAN': 'cran',
            'Debian': 'debian', 'Ubuntu': 'debian', 'RubyGems': 'rubygems', 'Red_Hat': 'redhat', 'Packagist': 'packagist', 'PyPI': 'pypi', 'Alpine': 'alpine', 'Maven': 'maven'}
-KEYS = ['r', 'rr', 'ra', 'rb', 'acc', 'ab', 'bc', 'ac']
+KEYS = ['r', 'rr', 'ra', 'rb', 'acc', 'ab', 'bc', 'ac', 'ba', 'cb', 'ca']
 FLIP = {'lt': 'gt', 'gt': 'lt', 'eq': 'eq'}
-RULES = {'semver': 'semver.org §11', 'debian': 'deb-version(7)', 'pypi': 'PEP 440', 'rubygems': 'Gem::Version', 'nuget': 'NuGet docs / SemVer 2', 'cran': 'R package_version'}
+RULES = {'semver': 'semver.org §11', 'debian': 'deb-version(7)', 'pypi': 'PEP 440', 'rubygems': 'Gem::Version', 'nuget': 'NuGet docs / SemVer 2', 'cran': 'R package_version', 'redhat': 'rpm-version(7) / rpmvercmp'}
 KNOWN = {'alpine': 'C07/alpine-leading-zero-padding', 'maven': 'C07/maven-qualifier-cycle'}
 
 
 def oracle(case, fi, fm):
     """The order laws evaluated on the IMPLEMENTATION's answers (gv = grammar-valid comes from the spec side)."""
     t = case.split(' ')
-    res = [fi.get(k) for k in ('r', 'rr', 'ra', 'rb', 'ab', 'bc', 'ac') if k in fi]
+    res = [fi.get(k) for k in ('r', 'rr', 'ra', 'rb', 'ab', 'bc', 'ac', 'ba', 'cb', 'ca') if k in fi]
     if 'panic' in res or fi.get('_') == 'panic':
         return 'Parse/CompareStr panicked (%s)' % ' '.join('%s=%s' % kv for kv in fi.items())
     acc = fi.get('acc', '')
@@ -82,13 +84,22 @@ def oracle(case, fi, fm):
     if t[0] == 'tri':
         if acc != '111' or fm.get('gv') != '111':
             return None
-        ab, bc, ac = fi.get('ab'), fi.get('bc'), fi.get('ac')
-        if ab not in FLIP or bc not in FLIP or ac not in FLIP:
-            return 'accepted versions but a comparison fails (ab=%s bc=%s ac=%s)' % (ab, bc, ac)
-        if ab in ('lt', 'eq') and bc in ('lt', 'eq'):
-            want = 'eq' if (ab == 'eq' and bc == 'eq') else 'lt'
-            if ac != want:
-                return 'transitivity: a?b=%s, b?c=%s but a?c=%s (expected %s)' % (ab, bc, ac, want)
+        rel = {('a', 'b'): fi.get('ab'), ('b', 'c'): fi.get('bc'), ('a', 'c'): fi.get('ac'),
+               ('b', 'a'): fi.get('ba'), ('c', 'b'): fi.get('cb'), ('c', 'a'): fi.get('ca')}
+        if any(v is not None and v not in FLIP for v in rel.values()):
+            return 'accepted versions but a comparison fails (%s)' % ' '.join('%s%s=%s' % (k[0], k[1], v) for k, v in rel.items())
+        # every ordering (p, q, r) of the triple whose three comparisons were reported
+        for p_, q_, r_ in (('a', 'b', 'c'), ('a', 'c', 'b'), ('b', 'a', 'c'), ('b', 'c', 'a'), ('c', 'a', 'b'), ('c', 'b', 'a')):
+            pq, qr, pr = rel[(p_, q_)], rel[(q_, r_)], rel[(p_, r_)]
+            if pq is None or qr is None or pr is None:
+                continue
+            if pq in ('lt', 'eq') and qr in ('lt', 'eq'):
+                want = 'eq' if (pq == 'eq' and qr == 'eq') else 'lt'
+                if pr != want:
+                    return 'transitivity: %s?%s=%s, %s?%s=%s but %s?%s=%s (expected %s)' % (p_, q_, pq, q_, r_, qr, p_, r_, pr, want)
+        for (x, y) in (('a', 'b'), ('b', 'c'), ('a', 'c')):
+            if rel[(y, x)] is not None and rel[(x, y)] in FLIP and FLIP[rel[(x, y)]] != rel[(y, x)]:
+                return 'antisymmetry: %s?%s=%s but %s?%s=%s' % (x, y, rel[(x, y)], y, x, rel[(y, x)])
     return None
 
 
